@@ -148,8 +148,16 @@ class Filter(base.Filter):
                                         'form', 'h1', 'h2', 'h3', 'h4', 'h5', 'h6',
                                         'header', 'hr', 'menu', 'nav', 'ol',
                                         'p', 'pre', 'section', 'table', 'ul')
+            elif type == "EndTag":
+                # ... and the parent element is an HTML element that is not
+                # an a, audio, del, ins, map, noscript, or video element, or
+                # an autonomous custom element.
+                parent = next["name"]
+                return (parent is not None and "-" not in parent and
+                        parent not in ('a', 'audio', 'del', 'ins', 'map',
+                                       'noscript', 'video'))
             else:
-                return type == "EndTag" or type is None
+                return type is None
         elif tagname == 'option':
             # An option element's end tag may be omitted if the option
             # element is immediately followed by another option element,
